@@ -54,6 +54,7 @@ type ReplayFn = fn(&str, &serde_json::Value) -> Result<common::CheckResult, Stri
 
 fn registry(id: &str) -> Option<(&'static str, RunFn, ReplayFn)> {
     Some(match id {
+        "C13" => ("C13", props::c13::run, props::c13::replay),
         "C14" => ("C14", props::c14::run, props::c14::replay),
         "C15" => ("C15", props::c15::run, props::c15::replay),
         "C02" => ("C02", props::c02::run, props::c02::replay),
